@@ -50,15 +50,23 @@ def run(ctx):
         p = ctx.run([vr, "conc-run", "-repo", core.REPO, "-seed", str(ctx.seed + gi), "-g", str(g), "-rounds", "1" if q else "2", "-out", out],
                     env={"GORACE": "halt_on_error=0 log_path=" + logp, "GOMAXPROCS": str(procs)}, timeout=3300, check=False)
         if p.returncode not in (0, 66):       # 66 = the race detector reported something (see the log)
+            # the run died.  If the race detector had already reported races, or the Go runtime aborted the process
+            # because of unsynchronised map access, that is the data race itself (a verdict); anything else is infrastructure
             m = re.search(r"^fatal error: (concurrent map [a-z ]+)", p.stderr, re.M)
-            if not m:
-                raise core.Infra("conc-run failed (%d): %s" % (p.returncode, p.stderr[-1500:]))
-            # the Go runtime aborts the process when it sees unsynchronised map access: that is the data race itself
+            raced = []
+            for f in glob.glob(logp + ".*"):
+                for blk in open(f).read().split("WARNING: DATA RACE")[1:]:
+                    fns = re.findall(r"github.com/invopop/gobl/([^\s(]+\([^)]*\)\.[A-Za-z0-9_]+|[^\s(]+)\(\)", blk)
+                    raced.append(fns[0] if fns else "unknown")
+            if not m and not raced:
+                first = re.search(r"^(fatal error|panic): .*$", p.stderr, re.M)
+                raise core.Infra("conc-run failed (%d): %s ... %s" % (p.returncode, first.group(0) if first else "", p.stderr[-1500:]))
             fr = re.findall(r"^github\.com/invopop/gobl[/.]([^\s(]+)\(", p.stderr, re.M)
-            site = fr[0] if fr else "unknown"
-            ctx.disagreements.append({"cls": "conc-race:fatal:" + site, "family": "conc",
-                                      "what": "the process was aborted by the Go runtime (fatal error: %s) in %s while goroutines worked on independent documents (G=%d, GOMAXPROCS=%d)" % (m.group(1), site, g, procs),
-                                      "replay": {"k": "race", "g": 0, "op": "fatal:" + site, "doc": "", "same": False, "seq": "", "got": ""}})
+            site = raced[0] if raced else (fr[0] if fr else "unknown")
+            ctx.disagreements.append({"cls": "conc-race:" + site, "family": "conc",
+                                      "what": "the concurrent run ended abnormally (%s) after %d data race report(s), first in %s (G=%d, GOMAXPROCS=%d)" % (
+                                          "fatal error: " + m.group(1) if m else "exit %d" % p.returncode, len(raced), site, g, procs),
+                                      "replay": {"k": "race", "g": 0, "op": site, "doc": "", "same": False, "seq": "", "got": ""}})
             continue
         # race reports become events of the trace
         reports = []
